@@ -64,6 +64,9 @@ def run(rep, tier, seed, replay=None):
         rep.cov["leanchecker"] = "ok" if okc else out
         if not okc:
             rep.violation("unverified", dict(broken="leanchecker Photon.Properties.C06", log=out), no_input=True)
+    if replay and json.load(open(replay)).get("harness") == "hsim_rw":
+        run_api(rep, tier, seed, [json.load(open(replay))["program"]])
+        return
     binary = hsim.build(rep)
     if not binary:
         return
@@ -97,3 +100,92 @@ def run(rep, tier, seed, replay=None):
                        "the Lean acceptor, grants and the real `state` word compared with the holder sets; evaluations = trace events")
     rep.sample(progs[-1])
     sync_eval.evaluate(rep, "C06", progs, results, oracle, C.known_findings("C06"), stuck_is_violation=False)
+    if not replay:
+        run_api(rep, tier, seed, None)
+
+
+def gen_api(r, big):
+    kind = r.choice(["qrw", "qrw", "qrw", "rw"])
+    lines = ["lock " + kind]
+    for i in range(1, r.randint(2, 6 if big else 5) + 1):
+        ops = []
+        for _ in range(r.randint(1, 7 if big else 5)):
+            c = r.random()
+            if c < 0.45:
+                ops.append("%s %s" % (r.choice(["r", "r", "w", "w", "w"]), r.choice(["inf", "inf", "100", "300", "1000", "0"])))
+                c2 = r.random()       # what the holder does before unlocking
+                if c2 < 0.35:
+                    ops.append("yield")
+                if c2 < 0.25:
+                    ops.append("spin %d" % r.choice([150, 400, 1200]))
+                elif c2 < 0.5:
+                    ops.append("sleep %d" % r.choice([50, 200, 500]))
+                ops.append("u")
+            elif c < 0.55:
+                ops.append(r.choice(["tr", "tw"])); ops.append("u")
+            elif c < 0.75:
+                ops.append("sleep %d" % r.choice([10, 100, 400]))
+            elif c < 0.9:
+                ops.append("yield")
+            else:
+                ops.append("spin %d" % r.choice([100, 500]))
+        lines.append("thread T%d %s" % (i, " ; ".join(ops)))
+    return lines
+
+
+def run_api(rep, tier, seed, progs):
+    """B. API-level specification automaton (Model/RwSpec.lean) on photon::qrwlock and photon::rwlock"""
+    binary = hsim.build(rep, "hsim_rw")
+    if not binary:
+        return
+    if progs is None:
+        progs = []
+        cp = os.path.join(C.VERIF, "corpus", "C06api")
+        if os.path.isdir(cp):
+            for f in sorted(os.listdir(cp)):
+                progs.append([l.rstrip("\n") for l in open(os.path.join(cp, f)) if l.strip() and not l.startswith("#")])
+        r = C.rng(seed, "c06api")
+        progs += [gen_api(r, tier == "thorough") for _ in range(12000 if tier == "thorough" else 2000)]
+    try:
+        results = hsim.run_programs(binary, progs, model="rwspec")
+    except RuntimeError as ex:
+        rep.violation("unverified", dict(broken="H-sim run (hsim_rw) failed: %s" % ex), no_input=True)
+        return
+    known = C.known_findings("C06")
+    nev, okc, seen, reported = 0, 0, {}, False
+    for p, res in zip(progs, results):
+        nev += len(res.trace)
+        kind = p[0].split()[1]
+        for l in res.trace:
+            w = l.split()
+            if w[0] == "ret":
+                rep.distinct(("api", kind, w[2], w[3], w[4]))
+        viol = []
+        if res.result.startswith("result crashed") or res.result.startswith("result hung"):
+            viol.append("the runtime crashed or hung: " + res.result)
+        if any(l.startswith("overlap") for l in res.trace):
+            viol.append("a writer was inside the critical section together with another holder")
+        rej = res.reject[1] if res.reject else None
+        sigs = viol + ([rej] if rej else [])
+        unlisted = [v for v in sigs if not [x for x in known if x["signature"] in v]]
+        for v in sigs:
+            k = [x for x in known if x["signature"] in v]
+            if k:
+                seen.setdefault(k[0]["id"], (k[0], p, v))
+        if not sigs:
+            okc += 1
+        if unlisted and not reported and not rep.violations:
+            i = res.reject[0] if res.reject else len(res.trace) - 1
+            # every event of the specification automaton is an API call/return or a quiescence point of the real run
+            rep.violation("counterexample", dict(harness="hsim_rw", program=p, expected=unlisted[0] if unlisted[0] != rej else "Lean automaton rejected `%s`: %s" % (res.trace[i], rej),
+                                                 trace=res.trace[:i + 1][-30:]))
+            reported = True
+    rep.count(nev)
+    rep.cov["api_programs"] = len(progs)
+    rep.cov["api_events"] = nev
+    rep.cov["api_traces_accepted"] = okc
+    rep.cov["api_rule"] = ("programs of 2..6 photon threads over one photon::qrwlock (3 of 4) or photon::rwlock doing read/write lock with 0/short/long/"
+                           "infinite timeouts, try_lock, unlock, sleep, yield and CPU-bound stretches of virtual time (so that a wake-up can find its waiter past "
+                           "its deadline); every API call/return and quiescence point must be accepted by the Lean specification automaton")
+    for kid, (k, p, v) in seen.items():
+        rep.known_finding("%s (e.g. program `%s`: %s)" % (k["description"], " | ".join(p)[:200], v[:140]))
